@@ -1,24 +1,33 @@
-use cobweb_mc::ctx::*;
-use cobweb_mc::model::*;
-use cobweb_mc::universe::*;
-use std::sync::Arc;
+use cobweb_mc::checks::{plan, Tier};
+use cobweb_mc::runner::{replay, run_plan};
+
+fn usage() -> !
+{
+    eprintln!("usage: cobweb-mc check <ID> [--tier quick|thorough] [--replay FILE]");
+    std::process::exit(2);
+}
 
 fn main()
 {
     std::panic::set_hook(Box::new(|_| {}));
-    let mut cfg = Config::base("probe");
-    cfg.setup = vec![Op::Register(1, Bundle::one(Trig::Broadcast(Ev::A)), Mode::Persistent)];
-    cfg.fixed_top = vec![Op::Run(0)];
-    cfg.script = Arc::new(|i: &DynInfo| {
-        let mut v = vec![];
-        for a in 0..i.n_actors { v.push(Op::Run(a as u8)); v.push(Op::SysEvent(a as u8)); }
-        v.push(Op::Broadcast(Ev::A));
-        v
-    });
-    cfg.budget = 3;
-    let cfg = Arc::new(cfg);
-    let forced: Vec<u32> = std::env::args().skip(1).map(|s| s.parse().unwrap()).collect();
-    let ex = execute(&cfg, forced);
-    for ev in ex.trace.iter() { println!("{:?}", ev); }
-    println!("record={:?} err={:?} {:?}", ex.record, ex.chooser_error, ex.machinery_error);
+    let args: Vec<String> = std::env::args().collect();
+    if args.len() < 3 || args[1] != "check" { usage(); }
+    let id = args[2].clone();
+    let mut tier = match std::env::var("VERIF_TIER").as_deref() { Ok("thorough") => Tier::Thorough, _ => Tier::Quick };
+    let mut replay_path: Option<String> = None;
+    let mut i = 3;
+    while i < args.len()
+    {
+        match args[i].as_str()
+        {
+            "--tier" => { i += 1; tier = match args.get(i).map(|s| s.as_str()) { Some("quick") => Tier::Quick, Some("thorough") => Tier::Thorough, _ => usage() }; }
+            "--replay" => { i += 1; replay_path = args.get(i).cloned(); if replay_path.is_none() { usage(); } }
+            _ => usage(),
+        }
+        i += 1;
+    }
+    if let Some(p) = replay_path { std::process::exit(replay(&id, &p)); }
+    let Some(plan) = plan(&id, tier) else { eprintln!("no plan for {id}"); std::process::exit(2); };
+    let out = run_plan(plan, tier);
+    std::process::exit(out.exit);
 }
